@@ -22,7 +22,9 @@ N_CASES = {"quick": 1500, "thorough": 80000}
 RULE = (
     "Random properly nested histories (depth <= 4, 5..40 steps) over {configure(**kw), "
     "reconfigure(**kw) enter, exit normally, exit by exception, request, configure/"
-    "reconfigure with an unknown setting} with kw drawn from timeout, retries, credentials "
+    "reconfigure with an unknown setting; a walk started inside a block (first request there) "
+    "and finished after the block was left (remaining requests must use the restored "
+    "timeout/retries/context)} with kw drawn from timeout, retries, credentials "
     "(same family, other family: V1, V2C x2, V3 noAuth/auth/authPriv users) and context "
     "(engine id, name). Reference model: a stack of configuration dicts. Monitors at the seam "
     "for EVERY request (incl. discovery probes): the sender's timeout/retries arguments and "
@@ -35,9 +37,12 @@ ASSUMPTIONS = [
     "a configure() inside a reconfigure() block is undone when the block exits (the block restores the snapshot taken at entry)",
     "the responder accepts any community so that every configuration can be exercised against one agent",
 ]
-REQUIRED_MONITORS = ("requests_checked", "block_exits_checked", "exception_exits_checked", "unknown_setting_refused", "family_switches_seen")
+REQUIRED_MONITORS = ("requests_checked", "block_exits_checked", "exception_exits_checked", "unknown_setting_refused", "family_switches_seen", "straddling_walks_checked")
 
 DB = {(1, 3, 6, 1, 2, 1, 1, 1, 0): ("str", b"x")}
+for _i in range(1, 5):
+    DB[(1, 3, 6, 1, 2, 1, 7, _i, 0)] = ("int", _i)
+WALK_ROOT = (1, 3, 6, 1, 2, 1, 7)
 USERS = [
     agent_mod.User(b"u1"),
     agent_mod.User(b"u2", ("md5", b"u2-auth-password")),
@@ -91,7 +96,9 @@ def gen_block(rng, depth, budget):
             steps.append(("unknown", rng.choice(("configure", "reconfigure")), gen_kwargs(rng)))
         elif depth < 4:
             inner = gen_block(rng, depth + 1, budget)
-            steps.append(("block", gen_kwargs(rng), inner, rng.random() < 0.3))
+            # straddle: a walk is started inside the block (first request there) and
+            # finished after the block has been left
+            steps.append(("block", gen_kwargs(rng), inner, rng.random() < 0.3, rng.random() < 0.3))
         else:
             steps.append(("request",))
     return steps
@@ -101,7 +108,7 @@ def shape(steps):
     out = []
     for s in steps:
         if s[0] == "block":
-            out.append(("block", tuple(sorted(s[1])), shape(s[2]), s[3]))
+            out.append(("block", tuple(sorted(s[1])), shape(s[2]), s[3], len(s) > 4 and s[4]))
         elif s[0] == "configure":
             out.append(("configure", tuple(sorted(s[1]))))
         elif s[0] == "unknown":
@@ -247,7 +254,9 @@ class Harness:
                     self.R.mon["unknown_setting_refused"] += 1
                 self.check_config(where)
             elif st[0] == "block":
-                _, kw, inner, by_exc = st
+                _, kw, inner, by_exc = st[:4]
+                straddle = len(st) > 4 and st[4]
+                agen = None
                 before = self.cur()["credentials"].split(":")[0]
                 new = dict(self.cur())
                 new.update(kw)
@@ -258,6 +267,12 @@ class Harness:
                             self.R.mon["family_switches_seen"] += 1
                         self.check_config(where + ">enter")
                         self.run_steps(inner, where)
+                        if straddle and not self.failed:
+                            agen = self.client.walk(OID(WALK_ROOT))
+                            first = rig.outcome(lambda: _anext(agen))
+                            self.check_new_events(where + ">walk-first")
+                            if first[0] != "ok" and not self.failed:
+                                self.viol("%s: first step of the walk failed: %r" % (where, first[1]))
                         if by_exc:
                             raise Boom()
                 except Boom:
@@ -269,6 +284,22 @@ class Harness:
                         self.model.pop()
                 self.R.mon["block_exits_checked"] += 1
                 self.check_config(where + ">exit")
+                if agen is not None and not self.failed:
+                    # the rest of the walk is issued OUTSIDE the block: restored settings
+                    # (same credential family only, otherwise the walk cannot continue)
+                    rest = rig.outcome(lambda: _drain(agen))
+                    fam_in = new["credentials"].split(":")[0]
+                    fam_out = self.cur()["credentials"].split(":")[0]
+                    if fam_in == fam_out and new["credentials"] == self.cur()["credentials"]:
+                        self.check_new_events(where + ">walk-rest")
+                        if rest[0] != "ok" and not self.failed:
+                            self.viol("%s: walk continued after the block failed: %r" % (where, rest[1]))
+                        elif not self.failed:
+                            self.R.mon["straddling_walks_checked"] += 1
+                    else:
+                        # credentials differ inside/outside: what the rest of the walk does
+                        # is not pinned by the property; only keep the event cursor in step
+                        self.checked_events = len(self.seam.events)
                 # the next request must speak the pre-block protocol
                 res = rig.outcome(lambda: drive(self.client.get(OID((1, 3, 6, 1, 2, 1, 1, 1, 0)))))
                 self.check_new_events(where + ">after")
@@ -276,12 +307,39 @@ class Harness:
                     self.viol("%s: request after the block failed: %r" % (where, res[1]))
 
 
+def _anext(agen):
+    step = agen.__anext__()
+    try:
+        step.send(None)
+    except StopIteration as stop:
+        return stop.value
+    except StopAsyncIteration:
+        return None
+    raise rig.WouldBlock("walk suspended")
+
+
+def _drain(agen):
+    out = []
+    while True:
+        step = agen.__anext__()
+        try:
+            step.send(None)
+        except StopIteration as stop:
+            out.append(stop.value)
+            if len(out) > 50:
+                raise rig.BudgetExceeded("walk too long")
+            continue
+        except StopAsyncIteration:
+            return out
+        raise rig.WouldBlock("walk suspended")
+
+
 def run_history(R, steps):
     def ser(steps):
         out = []
         for s in steps:
             if s[0] == "block":
-                out.append(["block", s[1], ser(s[2]), s[3]])
+                out.append(["block", s[1], ser(s[2]), s[3], len(s) > 4 and s[4]])
             else:
                 out.append(list(s))
         return out
@@ -314,7 +372,7 @@ def replay(R, v):
         out = []
         for s in steps:
             if s[0] == "block":
-                out.append(("block", s[1], de(s[2]), s[3]))
+                out.append(("block", s[1], de(s[2]), s[3], len(s) > 4 and s[4]))
             else:
                 out.append(tuple(s))
         return out
